@@ -784,4 +784,274 @@ theorem run_proj {b : Bytes} (hb : validSeg b) : ∀ (H : List (Bytes × Op)) (s
 
 end ops
 
+/-! ### concurrent clients -/
+
+section conc
+variable {cfg : Cfg} (hd : validSeg cfg.dir)
+include hd
+
+theorem body_self {s : Node} {b c : Bytes} {op : Op} {col : Coll} (hc : op.coll? = some c) (o : Owns b c col) (hop : OpOk op) :
+    body cfg (proj cfg b s) b op col = (proj cfg b (body cfg s b op col).1, (body cfg s b op col).2) := by
+  cases op with
+  | create v1 c' => simp [Op.coll?] at hc
+  | list => simp [Op.coll?] at hc
+  | get c' => exact getBody_self hd o
+  | drop c' =>
+    simp only [Op.coll?, Option.some.injEq] at hc; subst hc
+    exact dropBody_self hd o
+  | insert c' sid pts =>
+    simp only [Op.coll?, Option.some.injEq] at hc; subst hc
+    exact insertBody_self hd pts o hop
+  | update c' pts => exact updateBody_self hd pts o
+  | delete c' ids => exact deleteBody_self hd ids o
+  | search c' => exact searchBody_self hd o
+
+theorem body_other {s : Node} {a b c : Bytes} {op : Op} {col : Coll} (hc : op.coll? = some c) (o : Owns a c col) (hop : OpOk op)
+    (hb : validSeg b) (hab : b ≠ a) :
+    proj cfg b (body cfg s a op col).1 = proj cfg b s := by
+  cases op with
+  | create v1 c' => simp [Op.coll?] at hc
+  | list => simp [Op.coll?] at hc
+  | get c' => exact getBody_other hd o hab
+  | drop c' =>
+    simp only [Op.coll?, Option.some.injEq] at hc; subst hc
+    exact dropBody_other hd o hb hab
+  | insert c' sid pts =>
+    simp only [Op.coll?, Option.some.injEq] at hc; subst hc
+    exact insertBody_other hd pts o hop hb hab
+  | update c' pts => exact updateBody_other hd pts o hab
+  | delete c' ids => exact deleteBody_other hd ids o hab
+  | search c' => exact searchBody_other hd o hab
+
+omit hd in
+theorem wf_body {s : Node} {u c : Bytes} {op : Op} {col : Coll} (hwf : WF s) (hc : op.coll? = some c) (o : Owns u c col) (hop : OpOk op) :
+    WF (body cfg s u op col).1 := by
+  cases op with
+  | create v1 c' => simp [Op.coll?] at hc
+  | list => simp [Op.coll?] at hc
+  | get c' => exact wf_of_subset hwf (fun e he => he)
+  | drop c' =>
+    simp only [body, dropBody]
+    split <;> exact wf_of_subset hwf (fun e he => (List.mem_filter.mp he).1)
+  | insert c' sid pts =>
+    simp only [Op.coll?, Option.some.injEq] at hc; subst hc
+    have hput : WF { db := (if col.shards = [] then dbPut s.db (key u c') { col with shards := [sid] } else s.db), fs := s.fs } := by
+      split
+      · exact wf_put hwf ⟨by rw [o.user, o.id], o.user ▸ o.vu, o.id ▸ o.vc, by intro sh hsh; simp at hsh; subst hsh; exact hop⟩
+      · exact hwf
+    simp only [body, insertBody]
+    split
+    · exact hwf
+    · split
+      · exact wf_of_subset hwf (fun e he => he)
+      · split <;> exact wf_of_subset hput (fun e he => he)
+  | update c' pts =>
+    simp only [body, updateBody]
+    split
+    · exact hwf
+    · split <;> exact wf_of_subset hwf (fun e he => he)
+  | delete c' ids =>
+    simp only [body, deleteBody]
+    split
+    · exact hwf
+    · split <;> exact wf_of_subset hwf (fun e he => he)
+  | search c' => exact wf_of_subset hwf (fun e he => he)
+
+/-- a client is in a good state: the shard-name oracles of its requests are plain names, and a
+record it holds in flight is a record of ITS tenant for the collection the request names -/
+def Client.Good (t : Client) : Prop :=
+  (∀ op ∈ t.todo, OpOk op) ∧
+  ∀ op col, t.inflight = some (op, col) → OpOk op ∧ ∃ c, op.coll? = some c ∧ Owns t.user c col
+
+omit hd in
+/-- `step` on a collection-scoped request is the look-up followed at once by the handler -/
+theorem step_eq_body {s : Node} {u c : Bytes} {op : Op} (hc : op.coll? = some c) (hacc : acceptUser cfg.variant u = true) :
+    step cfg s u op = if !validUriId c then (s, .bad) else
+      match dbGet s.db (key u c) with
+      | none => (s, .notFound)
+      | some col => body cfg s u op col := by
+  cases op <;> simp only [Op.coll?, Option.some.injEq, reduceCtorEq] at hc
+  all_goals (subst hc; simp only [step, hacc, withColl, body, Bool.not_true, Bool.false_eq_true, if_false])
+  all_goals (split <;> try rfl)
+  all_goals (split <;> rfl)
+
+omit hd in
+theorem cstep_user (s : Node) (t : Client) : (cstep cfg s t).2.user = t.user := by
+  unfold cstep
+  split
+  · rfl
+  · split
+    · rfl
+    · split
+      · rfl
+      · split
+        · rfl
+        · split
+          · rfl
+          · split <;> rfl
+
+omit hd in
+theorem wf_cstep {s : Node} {t : Client} (hwf : WF s) (hacc : acceptUser cfg.variant t.user = true → validSeg t.user) (hg : t.Good) :
+    WF (cstep cfg s t).1 ∧ (cstep cfg s t).2.Good := by
+  unfold cstep
+  split
+  · rename_i op col hin
+    obtain ⟨hop, c, hc, o⟩ := hg.2 op col hin
+    exact ⟨wf_body hwf hc o hop, ⟨hg.1, fun op col h => by simp at h⟩⟩
+  · rename_i hin
+    split
+    · exact ⟨hwf, hg⟩
+    · rename_i op rest htodo
+      have hrest : ∀ op' ∈ rest, OpOk op' := fun op' h' => hg.1 op' (by rw [htodo]; simp [h'])
+      have hop : OpOk op := hg.1 op (by rw [htodo]; simp)
+      have gnone : ∀ (g : List Resp), Client.Good { t with todo := rest, got := g } :=
+        fun g => ⟨hrest, fun op col h => by simp only at h; rw [hin] at h; cases h⟩
+      split
+      · exact ⟨hwf, gnone _⟩
+      · rename_i hacc'
+        have hacc'' : acceptUser cfg.variant t.user = true := by simpa using hacc'
+        split
+        · exact ⟨wf_step hwf hacc hop, gnone _⟩
+        · rename_i c hc
+          split
+          · exact ⟨hwf, gnone _⟩
+          · split
+            · exact ⟨hwf, gnone _⟩
+            · rename_i col hget
+              refine ⟨hwf, hrest, ?_⟩
+              intro op' col' h
+              simp only [Option.some.injEq, Prod.mk.injEq] at h
+              obtain ⟨rfl, rfl⟩ := h
+              exact ⟨hop, c, hc, owns_of_get hwf (hacc hacc'') hget⟩
+
+/-- a step of a client of another tenant leaves `b`'s part of the node alone -/
+theorem cstep_other {s : Node} {t : Client} {b : Bytes} (hwf : WF s) (hacc : acceptUser cfg.variant t.user = true → validSeg t.user)
+    (hg : t.Good) (hb : validSeg b) (hab : b ≠ t.user) :
+    proj cfg b (cstep cfg s t).1 = proj cfg b s := by
+  unfold cstep
+  split
+  · rename_i op col hin
+    obtain ⟨hop, c, hc, o⟩ := hg.2 op col hin
+    exact body_other hd hc o hop hb hab
+  · split
+    · rfl
+    · rename_i op rest htodo
+      have hop : OpOk op := hg.1 op (by rw [htodo]; simp)
+      split
+      · rfl
+      · split
+        · exact step_other hd hwf hacc hb hab hop
+        · split
+          · rfl
+          · split <;> rfl
+
+/-- a step of a client of `b` sees, and changes, only `b`'s part of the node -/
+theorem cstep_self {s : Node} {t : Client} {b : Bytes} (hwf : WF s) (hacc : acceptUser cfg.variant b = true → validSeg b)
+    (hg : t.Good) (hu : t.user = b) :
+    cstep cfg (proj cfg b s) t = (proj cfg b (cstep cfg s t).1, (cstep cfg s t).2) := by
+  subst hu
+  unfold cstep
+  split
+  · rename_i op col hin
+    obtain ⟨hop, c, hc, o⟩ := hg.2 op col hin
+    simp only [body_self hd hc o hop]
+  · split
+    · rfl
+    · rename_i op rest htodo
+      have hop : OpOk op := hg.1 op (by rw [htodo]; simp)
+      split
+      · rfl
+      · rename_i hacc'
+        have hv : validSeg t.user := hacc (by simpa using hacc')
+        split
+        · simp only [step_self hd hwf hacc hop]
+        · rename_i c hc
+          split
+          · rfl
+          · have hk : inDb t.user (key t.user c) = true := by
+              rw [inDb_key (validSeg_slash hv) (validSeg_slash hv)]; simp
+            have h1 : dbGet (proj cfg t.user s).db (key t.user c) = dbGet s.db (key t.user c) := by
+              rw [proj_eq]; exact dbGet_res (inDb t.user) s.db hk
+            rw [h1]
+            split <;> rfl
+
+/-- two lists of clients that agree slot by slot on the tenant, and entirely on the clients of `b` -/
+def agreeAt (b : Bytes) : Option Client → Option Client → Prop
+  | some t, some t' => t.user = t'.user ∧ (t.user = b → t = t')
+  | none, none => True
+  | _, _ => False
+def Agree (b : Bytes) (ts tp : List Client) : Prop := ∀ i : Nat, agreeAt b ts[i]? tp[i]?
+
+omit hd in
+theorem agree_refl (b : Bytes) (ts : List Client) : Agree b ts ts := by
+  intro i; cases h : ts[i]? <;> simp [agreeAt]
+
+omit hd in
+theorem agree_set_both {b : Bytes} {ts tp : List Client} (h : Agree b ts tp) (i : Nat) (t : Client) :
+    Agree b (ts.set i t) (tp.set i t) := by
+  intro j
+  have hj := h j
+  have hi := h i
+  by_cases e : i = j
+  · subst e
+    simp only [List.getElem?_set_self']
+    cases h1 : ts[i]? <;> cases h2 : tp[i]? <;> simp [h1, h2, agreeAt] at hi ⊢
+  · simp only [List.getElem?_set_ne e]; exact hj
+
+omit hd in
+theorem agree_set_left {b : Bytes} {ts tp : List Client} (h : Agree b ts tp) {i : Nat} {t' : Client} (ht' : tp[i]? = some t')
+    (t : Client) (hu : t.user = t'.user) (hnb : t.user ≠ b) : Agree b (ts.set i t) tp := by
+  intro j
+  have hj := h j
+  by_cases e : i = j
+  · subst e
+    have hi := h i
+    simp only [List.getElem?_set_self', ht'] at hi ⊢
+    cases h1 : ts[i]? <;> simp [h1, agreeAt] at hi ⊢
+    exact ⟨hu, fun hb' => absurd hb' hnb⟩
+  · simp only [List.getElem?_set_ne e]; exact hj
+
+theorem crun_proj {b : Bytes} (hb : validSeg b) (hacc : ∀ u, acceptUser cfg.variant u = true → validSeg u) :
+    ∀ (sched : List Nat) (s : Node) (ts tp : List Client), WF s → (∀ t ∈ ts, t.Good) → Agree b ts tp →
+      proj cfg b (crun cfg s ts sched).1 = (crunOnly cfg b (proj cfg b s) tp sched).1 ∧
+      Agree b (crun cfg s ts sched).2 (crunOnly cfg b (proj cfg b s) tp sched).2
+  | [], s, ts, tp, _, _, hag => ⟨rfl, hag⟩
+  | i :: rest, s, ts, tp, hwf, hgood, hag => by
+    have hi := hag i
+    unfold crun crunOnly
+    cases h1 : ts[i]? with
+    | none =>
+      cases h2 : tp[i]? with
+      | none => simp only; exact crun_proj hb hacc rest s ts tp hwf hgood hag
+      | some t' => simp [h1, h2, agreeAt] at hi
+    | some t =>
+      cases h2 : tp[i]? with
+      | none => simp [h1, h2, agreeAt] at hi
+      | some t' =>
+        simp only [h1, h2, agreeAt] at hi
+        obtain ⟨hu, hsame⟩ := hi
+        have htmem : t ∈ ts := List.mem_of_getElem? h1
+        have hg := hgood t htmem
+        have hw := wf_cstep (cfg := cfg) (s := s) hwf (hacc t.user) hg
+        have hgood' : ∀ x ∈ ts.set i (cstep cfg s t).2, x.Good := by
+          intro x hx
+          rcases List.mem_or_eq_of_mem_set hx with hx | hx
+          · exact hgood x hx
+          · rw [hx]; exact hw.2
+        simp only
+        by_cases hub : t.user = b
+        · have htt := hsame hub
+          subst htt
+          simp only [hub, if_true]
+          rw [cstep_self hd hwf (hacc b) hg hub]
+          exact crun_proj hb hacc rest _ _ _ hw.1 hgood' (agree_set_both hag i _)
+        · have hub' : ¬ t'.user = b := fun e => hub (hu.trans e)
+          simp only [hub', if_false]
+          have hother := cstep_other hd (s := s) hwf (hacc t.user) hg hb (fun e => hub e.symm)
+          have ih := crun_proj hb hacc rest (cstep cfg s t).1 (ts.set i (cstep cfg s t).2) tp hw.1 hgood'
+            (agree_set_left hag h2 _ ((cstep_user s t).trans hu) (by rw [cstep_user]; exact hub))
+          rw [hother] at ih
+          exact ih
+
+end conc
 end Sema.C16
